@@ -570,7 +570,18 @@ def _plan(tier):
             "variants": 4}
 
 
+_CASES_CACHE = {}
+
+
 def _cases(tier, seed):
+    key = (tier, seed)
+    if key not in _CASES_CACHE:
+        _CASES_CACHE.clear()
+        _CASES_CACHE[key] = _build_cases(tier, seed)
+    return _CASES_CACHE[key]
+
+
+def _build_cases(tier, seed):
     plan = _plan(tier)
     pool = c03.style_pool(seed, plan["blocks"], 40)
     cases = [("rt", parts) for parts in rt_cases(seed, pool, plan["rt"])]
